@@ -161,6 +161,7 @@ class Tracer:
     def __init__(self, snap_ballots=False):
         self.events = []
         self.calls = 0
+        self.record = None
         self.snap_ballots = snap_ballots
 
     def install(self):
@@ -170,6 +171,10 @@ class Tracer:
 
         def action(self_, tag, msg):
             orig(self_, tag, msg)
+            if tr.record is None:
+                tr.record = self_
+            elif self_ is not tr.record:
+                return                  # another election's record (constructed alongside): not part of this history
             tr.calls += 1
             E = self_.E
             ev = Event()
@@ -218,6 +223,7 @@ class Run:
         self.hook_calls = 0
         self.report = self.dump = self.json = None
         self.mults = None          # raw multipliers of E.ballots
+        self.other = None
         self.rankings = None
 
     @property
@@ -234,7 +240,7 @@ class Run:
         return [e for e in self.events if e.has_snap]
 
 
-def do_count(blt=None, options=None, profile=None, budget=2.0, snap_ballots=False, render=False):
+def do_count(blt=None, options=None, profile=None, budget=2.0, snap_ballots=False, render=False, construct_also=None):
     """
     parse (unless a profile is given), construct, count -- traced and budgeted.
     Exceptions raised by droop are captured in run.error with run.phase saying where.
@@ -258,6 +264,9 @@ def do_count(blt=None, options=None, profile=None, budget=2.0, snap_ballots=Fals
                 run.cfg = ArithCfg(E.V)
                 run.mults = [raw(b.multiplier) for b in E.ballots]
                 run.rankings = [list(b.ranking) for b in E.ballots]
+                if construct_also is not None:
+                    # another election with the same rule and options is constructed (not counted) before this one is counted
+                    run.other = Election(ElectionProfile(data=construct_also), dict(run.options))
                 run.phase = 'count'
                 E.count()
                 if render:
